@@ -352,7 +352,7 @@ calcvla(struct func *f, struct type *t)
 		assert(t->base->size || t->base->kind == TYPEARRAY);
 		assert(t->u.array.length);
 		length = convert(f, &typeulong, t->u.array.length->type, funcexpr(f, t->u.array.length));
-		basesize = t->base->size ? mkintconst(t->base->size) : t->base->u.array.size;
+		basesize = t->base->prop & PROPVM && !t->base->size ? t->base->u.array.size : mkintconst(t->base->size);
 		t->u.array.size = funcinst(f, IMUL, 'l', length, basesize);
 	}
 }
@@ -368,7 +368,7 @@ funcalloc(struct func *f, struct decl *d)
 	assert(!d->type->incomplete);
 	calcvla(f, d->type);
 	end = f->end;
-	if (d->type->size) {
+	if (d->type->size || !(d->type->prop & PROPVM)) {
 		f->end = f->start;
 		v = mkintconst(d->type->size);
 	} else {
